@@ -271,11 +271,12 @@ Example C20_ex_ns3 :
    [[RVal NStored]; [RVal NFoundT; RVal NFoundT]; [RVal NFoundT]]).
 Proof. vm_compute. reflexivity. Qed.
 
-(* why cta_ok asks for the WRITE lock: a compound operation under a READ lock passes
-   LockEv.disciplined, one_lock and calls_atomic, fails cta_ok, and loses a registration *)
+(* why cta_ok (and LockEv.calls_atomic, which the regenerated lock paths are re-proved against)
+   ask for the WRITE lock: a compound operation under a READ lock passes LockEv.disciplined and
+   one_lock, fails calls_atomic and cta_ok, and loses a registration *)
 Definition rlock_body : list lev := [LRLock "mutex"; LSafeCall "data" "Get"; LSafeCall "data" "Register"; LRUnlock "mutex"].
 Example C20_ex_calls_atomic_rlock :
-  (disciplined rlock_body && one_lock "mutex" rlock_body && calls_atomic rlock_body, cta_ok "data" rlock_body) = (true, false) /\
+  (disciplined rlock_body && one_lock "mutex" rlock_body, calls_atomic rlock_body, cta_ok "data" rlock_body) = (true, false, false) /\
   option_map (fun s => (finished s, s_data s "data"))
     (run (init [[ns_op (KReg "ns" "a" 1%Z) rlock_body]; [ns_op (KReg "ns" "b" 2%Z) rlock_body]] (fun _ => Some []))
          [0; 1; 0; 1; 0; 1; 0; 1; 0; 1; 0; 1]) =
